@@ -681,7 +681,8 @@ class HierarchyElement(DiagLayer):
         if com_param is None:
             return None
 
-        val = com_param.value
+        # take the default of the parameter specification into account
+        val = com_param.get_value()
         if not isinstance(val, str):
             return None
 
@@ -701,7 +702,8 @@ class HierarchyElement(DiagLayer):
         if com_param is None:
             return None
 
-        val = com_param.value
+        # take the default of the parameter specification into account
+        val = com_param.get_value()
         if not isinstance(val, str):
             return None
 
